@@ -6,6 +6,7 @@ package harness
 // triggered flush, restart with another configuration, merge, external writer).
 
 import (
+	"strings"
 	"bytes"
 	"context"
 	"encoding/binary"
@@ -28,6 +29,77 @@ func genFileCase() *rapid.Generator[FileCase] {
 			return FileCase{Hist: drawHistory(t, mergeHeavyOpts)}
 		}
 		return FileCase{Hist: drawHistory(t, searchOpts)}
+	})
+}
+
+// genFileCaseFaulted: the same histories with one-shot store failures inside
+// (a failed flush or merge, then successful ones on the same engine).
+func genFileCaseFaulted() *rapid.Generator[FileCase] {
+	return rapid.Custom(func(t *rapid.T) FileCase {
+		o := searchOpts
+		if rapid.Bool().Draw(t, "mergeheavy") {
+			o = mergeHeavyOpts
+		}
+		o.Faults = true
+		return FileCase{Hist: drawHistory(t, o)}
+	})
+}
+
+// genFileCaseShapes: extreme but legal block shapes — thousands of identical
+// or near-identical rows (compression ratios in the thousands under zstd), one
+// multi-hundred-KB row, empty-ish rows — flushed in 1-4 files and merged.
+func genFileCaseShapes() *rapid.Generator[FileCase] {
+	return rapid.Custom(func(t *rapid.T) FileCase {
+		h := History{Cfg: drawCfg(t, "default", numFieldPool, true), Meta: "mem", Data: pick(t, "data", []string{"mem", "fs"})}
+		if h.Data == "fs" {
+			h.Meta = pick(t, "meta", []string{"fs", "mem"})
+		}
+		h.Cfg.Compression = pick(t, "comp", []string{"zstd", "zstd", "snappy", "none", ""})
+		h.Cfg.ZstdLevel = pick(t, "zl", []int{1, 3, 9, 19})
+		h.Cfg.Partition = pick(t, "part", []string{"none", "const", "idmod3"})
+		h.Cfg.RGRows, h.Cfg.RGBytes = 100000, 64<<20
+		h.Cfg.BufRows, h.Cfg.BufBytes, h.Cfg.BufTimeMs = 1000000, 1<<30, 0
+		h.Cfg.MaxFileSize, h.Cfg.MaxMerge = 10<<30, 10
+		nfl := rapid.IntRange(1, 4).Draw(t, "nflushes")
+		for i := 0; i < nfl; i++ {
+			var rows []Val
+			switch pick(t, "shape", []string{"identical", "fatident", "fatident", "near", "huge", "tiny"}) {
+			case "fatident":
+				// rows that differ only in their id and carry the same 8-30 KB value:
+				// compression ratios far beyond 1000:1
+				n := pick(t, "nfat", []int{100, 250, 400})
+				blob := VStr(strings.Repeat(pick(t, "fatunit", []string{"a", "log line ", "0123456789"}), pick(t, "fatlen", []int{8000, 30000})/9))
+				for j := 0; j < n; j++ {
+					rows = append(rows, Val{K: "obj", O: []KV{{K: "blob", V: blob}, {K: "level", V: VStr("info")}}})
+				}
+			case "identical":
+				n := pick(t, "nident", []int{700, 1500, 3000, 6000})
+				r := Val{K: "obj", O: []KV{{K: "msg", V: VStr("the same line again and again")}, {K: "level", V: VStr("info")}, {K: "n", V: VInt(7)}}}
+				for j := 0; j < n; j++ {
+					rows = append(rows, r)
+				}
+			case "near":
+				n := pick(t, "nnear", []int{500, 2000, 4000})
+				for j := 0; j < n; j++ {
+					rows = append(rows, Val{K: "obj", O: []KV{{K: "msg", V: VStr("request served")}, {K: "seq", V: VInt(int64(j % 10))}}})
+				}
+			case "huge":
+				n := pick(t, "hugelen", []int{100000, 400000, 1500000})
+				unit := pick(t, "hugeunit", []string{"a", "ab cd ", "x y z "})
+				rows = append(rows, Val{K: "obj", O: []KV{{K: "blob", V: VStr(strings.Repeat(unit, n/len(unit)))}}})
+				rows = append(rows, Val{K: "obj", O: []KV{{K: "msg", V: VStr("small neighbour")}}})
+			default:
+				n := pick(t, "ntiny", []int{1, 50, 900})
+				for j := 0; j < n; j++ {
+					rows = append(rows, Val{K: "obj", O: nil})
+				}
+			}
+			h.Steps = append(h.Steps, Step{Op: "ingest", Rows: rows}, Step{Op: "flush"})
+		}
+		if chance(t, "merge", 70) {
+			h.Steps = append(h.Steps, Step{Op: "merge"})
+		}
+		return FileCase{Hist: h}
 	})
 }
 
@@ -375,20 +447,27 @@ func runFileProperty(judge func(*World, []*FileInfo) *Violation) func(FileCase) 
 		if len(w.MergeLog) > 0 {
 			Ev.Class("case:has-merge")
 		}
+		if w.FaultsFired > 0 {
+			Ev.Class("case:history-fault-fired")
+		}
 		return judge(w, files)
 	}
 }
 
 func TestC17(t *testing.T) {
-	Ev.Rule = "files left by generated histories (flush, limit-triggered flush, restart with another configuration, merge, external writer; mem and filesystem stores). Oracle: an independent reader written from FILE_FORMAT.md (footer framing, metadata CRC, contiguity from offset 0, region directly behind the row data with sections in block order, per-block CRC32C / compression / decompressed length / row count, distinct entry counts recomputed by the harness's own walker and tokenizers) and agreement of ReadFileMetadata / ReadDataBlockRowData / NewBlockRowScanner / ReadDataBlockBloomFilters and of the MetaStore's metadata with it; stored bytes equal the harness's own json.Marshal of each ingested row. Non-trivial: file with >=2 blocks; distinct by hash of its metadata JSON."
+	Ev.Rule = "files left by generated histories (flush, limit-triggered flush, restart with another configuration, merge, external writer; mem and filesystem stores); faulted phase: the same histories with 1-3 one-shot CreateFile/Write/Close/Update failures inside (failed flushes and merges between successful ones on the same engine); shapes phase: thousands of identical or near-identical rows per block (zstd ratios in the thousands), a row of up to 1.5 MB, hundreds of empty rows, 1-4 flushes and a merge). Oracle: an independent reader written from FILE_FORMAT.md (footer framing, metadata CRC, contiguity from offset 0, region directly behind the row data with sections in block order, per-block CRC32C / compression / decompressed length / row count, distinct entry counts recomputed by the harness's own walker and tokenizers) and agreement of ReadFileMetadata / ReadDataBlockRowData / NewBlockRowScanner / ReadDataBlockBloomFilters and of the MetaStore's metadata with it; stored bytes equal the harness's own json.Marshal of each ingested row. Non-trivial: file with >=2 blocks; distinct by hash of its metadata JSON."
 	Ev.Assumptions = []string{"entry counts are compared only for blocks whose rows the oracle can decide", "external-writer blocks follow FILE_FORMAT.md but may omit hashes/filters (layout checked non-strictly when a history contains external files)"}
 	runChecks(t, "files", 300, 10000, genFileCase(), runFileProperty(judgeC17))
+	runChecks(t, "faulted", 150, 5000, genFileCaseFaulted(), runFileProperty(judgeC17))
+	runChecks(t, "shapes", 30, 800, genFileCaseShapes(), runFileProperty(judgeC17))
 }
 
 func TestC18(t *testing.T) {
 	Ev.Rule = "same generated files as C17. Oracle: for every stored row the oracle can decide, the block's and the file's filters (as returned by ReadDataBlockBloomFilters / ReadFileMetadata) test positive for every path, token and path::token entry the independent walker+tokenizer emits; block minmax ranges cover each row's indexed values (math/big floor/ceil) and list exactly the keys some row provided; block partition id equals the partition function's value recorded at ingest. Non-trivial: file with >=2 blocks; distinct by hash of its block metadata."
 	Ev.Assumptions = []string{"an absent filter (external-writer files) imposes nothing", "a bloom filter can hide a missing entry behind a false positive; half the cases use FPR <= 1e-6"}
 	runChecks(t, "files", 300, 10000, genFileCase(), runFileProperty(judgeC18))
+	runChecks(t, "faulted", 150, 5000, genFileCaseFaulted(), runFileProperty(judgeC18))
+	runChecks(t, "shapes", 30, 800, genFileCaseShapes(), runFileProperty(judgeC18))
 }
 
 var _ = io.EOF
